@@ -53,6 +53,8 @@ def toMOp (s : Sys) : Op → Option (MOp Int)
   | .del x => some (.dtor x)
   | .pb x (.ext v) => some (.on x (.pushBack v))
   | .pb x (.self i) => some (.on x (.pushBackSelf i))
+  | .pbm x v => some (.on x (.pushBackMove v))
+  | .newn x n a => some (.ctorCount x a n 0)
   | .ins x p (.ext v) => some (.on x (.insert p v))
   | .ins x p (.self i) => some (.on x (.insertSelf p i))
   | .insm x p v => some (.on x (.insertMove p v))
@@ -166,8 +168,11 @@ theorem bridge (ac : ApiCfg) (s : Sys) (op : Op) (m : MOp Int) (w0 : World Int) 
   | appc x y => injection h with h; subst h; simp only [opM, MOp.run]; bridge_close
   | appm x y => injection h with h; subst h; simp only [opM, MOp.run]; bridge_close
   | new x a => cases h
-  | newn x n a => cases h
-  | pbm x v => cases h
+  | newn x n a =>
+    injection h with h; subst h
+    simp only [opM, MOp.run, show Gen.ctorCountChecked = true from rfl]
+    rw [forget_bind_pure, forget_unit]
+  | pbm x v => injection h with h; subst h; simp only [opM, MOp.run, SOp.run]; bridge_close
   | «at» x i => cases h
   | get x i => cases h
 
@@ -231,12 +236,12 @@ theorem bridge_valid_on (s : Sys) (op : Op) (c : Nat) (sop : SOp Int) (h : toMOp
   | appc _ _ => injection h with h; cases h
   | appm _ _ => injection h with h; cases h
   | new _ _ => cases h
-  | newn _ _ _ => cases h
-  | pbm _ _ => cases h
+  | newn _ _ _ => injection h with h; cases h
+  | pbm x v => injection h with h; injection h with h1 h2; subst h1; subst h2; simp [Op.valid] at hv; exact ⟨hv, trivial⟩
   | «at» _ _ => cases h
   | get _ _ => cases h
 
-/-- non-vacuity: the bridge covers 31 of the protocol's call forms; two instances -/
+/-- non-vacuity: the bridge covers 33 of the protocol's call forms; two instances -/
 example : toMOp (initSys 2 3) (.insn 0 1 3 (.self 0)) = some (.on 0 (.insertNSelf 1 3 0)) ∧
           toMOp (initSys 2 3) (.appm 0 2) = some (.appendMove 0 2) := ⟨rfl, rfl⟩
 
